@@ -92,8 +92,47 @@ def _series(rng, n):
     return out, {'family': 'series', 'which': which}
 
 
-FAMILIES = {'geo': _geo, 'geo_clean': _geo_clean, 'const': _const, 'random': _random,
+def _int_geo(rng, n):
+    """Integer-valued L + a*q**i (exactly representable), held constant once it gets large."""
+    L = rng.choice([0, 1, -1, 7, -3])
+    q = rng.choice([2, 3, -2, -3, 5])
+    a = rng.choice([1, 2, -1, 3])
+    out = []
+    for i in range(n):
+        v = L + a * q ** min(i, 18)
+        out.append(float(v if abs(v) < 10 ** 6 else (out[-1] if out else 0)))
+    return out, {'family': 'int_geo', 'k': 1}
+
+
+FAMILIES = {'int_geo': _int_geo, 'geo': _geo, 'geo_clean': _geo_clean, 'const': _const, 'random': _random,
             'divergent': _divergent, 'series': _series}
+
+
+def _small_ints(rng, n):
+    return [float(rng.randint(-9, 9)) for _ in range(n)], {'family': 'random_int'}
+
+
+def _round_f32(t):
+    try:
+        return struct.unpack('<f', struct.pack('<f', t))[0]
+    except OverflowError:
+        return math.copysign(3.0e38, t)
+
+
+def typed(term, dt):
+    """The object actually handed to the accelerator for a plan term."""
+    if not dt:
+        return term
+    import numpy as np
+    if dt is True or dt == 'f64':
+        return np.float64(term)
+    if dt == 'f32':
+        return np.float32(term)
+    if dt == 'i64':
+        return np.int64(int(term))
+    if dt == 'i32':
+        return np.int32(int(term))
+    return int(term)
 
 
 def make_stream(rng, n, families):
@@ -119,7 +158,7 @@ def generate(run_seed, mode='seq'):
     nt = 1 if mode == 'seq' else rng.choice([2, 2, 3, 4, 4, 8])
     p_abort = rng.choice([0.0, 0.0, 0.02])
     p_retire = rng.choice([0.0, 0.02, 0.1])
-    np_terms = rng.random() < 0.2
+    dtype_mode = rng.choice([None, None, None, 'f64', 'f32', 'i64', 'i32', 'pyint'])
     tasks = []
     for tid in range(nt):
         ninst = rng.randint(1, 6 if mode == 'seq' else 3)
@@ -131,8 +170,14 @@ def generate(run_seed, mode='seq'):
             counter += 1
             name = 't%d.i%d' % (tid, counter)
             n = rng.randint(1, 200 if long_streams else 40)
-            terms, meta = make_stream(rng, n, fams)
-            op = {'op': 'spawn', 'i': name, 'terms': terms, 'meta': meta, 'np': np_terms}
+            dt = dtype_mode if rng.random() < 0.7 else None
+            if dt in ('i64', 'i32', 'pyint'):
+                terms, meta = (_int_geo if rng.random() < 0.5 else _small_ints)(rng, n)
+            else:
+                terms, meta = make_stream(rng, n, fams)
+                if dt == 'f32':
+                    terms = [_round_f32(t) for t in terms]
+            op = {'op': 'spawn', 'i': name, 'terms': terms, 'meta': meta, 'np': dt}
             if rng.random() < p_eps:
                 op['cls'] = 'EpsAlg'
             else:
@@ -170,6 +215,10 @@ def generate(run_seed, mode='seq'):
             'mode': 'explore', 'seed': rng.getrandbits(48),
             'mean_gap': rng.choice([5, 50, 500]), 'budget': rng.choice([2, 8, 32, 128]),
             'bias': rng.choice([0.0, 0.3, 0.8]), 'probe': rng.choice([0.0, 0.5, 1.0]),
+            'alias': rng.random() < 0.4,
+            'targets': sorted(set(rng.randint(1, max(20, 3 * sum(
+                1 for t in tasks for o in t['ops'] if o['op'] == 'feed')))
+                for _ in range(rng.choice([0, 1, 2, 4, 8, 16])))),
             'pick': rng.choice(['uniform', 'prio']),
             'prio': [rng.random() for _ in range(nt)],
         }
@@ -233,9 +282,7 @@ class _Exec(object):
                 if p >= len(sp['terms']):
                     continue
                 self.pos[op['i']] = p + 1
-                term = sp['terms'][p]
-                if sp.get('np'):
-                    term = np.float64(term)
+                term = typed(sp['terms'][p], sp.get('np'))
                 flt = op.get('fault')
                 fired = False
                 if flt and not self.light:
@@ -260,6 +307,7 @@ class _Exec(object):
                         sched.trace = False
                     if fired:
                         self.faults['abort'] = self.faults.get('abort', 0) + 1
+                sched.call_done[tid] = True
                 self.obs.append({'task': tid, 'idx': idx, 'i': op['i'], 'k': p, 'rec': _rec(val),
                                  'faulted': fired})
 
@@ -298,7 +346,7 @@ def eval_ref(request):
     out = []
     for t in terms:
         try:
-            out.append(_rec(obj(np.float64(t) if use_np else t)))
+            out.append(_rec(obj(typed(t, use_np))))
         except Exception as e:  # noqa: BLE001
             out.append(_rec(e))
     extra = None
@@ -505,6 +553,9 @@ def judge(plan, result, refs):
         stats['instances'] += 1
         fam = sp['meta'].get('family', '?')
         stats['families'][fam] = stats['families'].get(fam, 0) + 1
+        dtk = str(sp.get('np') or 'pyfloat')
+        stats.setdefault('term_types', {})
+        stats['term_types'][dtk] = stats['term_types'].get(dtk, 0) + 1
         # an aborted feed leaves the instance in an unspecified state: judge only what precedes it
         cut = len(obs)
         for q, ob in enumerate(obs):
@@ -522,7 +573,7 @@ def judge(plan, result, refs):
         limexp = sp.get('limexp')
         if limexp:
             stats['limexp_seen'].add(limexp)
-        ref_req = [cls, limexp, terms, bool(sp.get('np'))]
+        ref_req = [cls, limexp, terms, sp.get('np')]
         ref_recs, extra = refs.get(ref_req)
         if stats['compared'] == 0 and nfed <= 60:
             stats['refsample'] = [ref_req]
@@ -532,7 +583,9 @@ def judge(plan, result, refs):
             k = next(i for i, (a, b) in enumerate(zip(recs, ref_recs)) if a != b)
             detail = {'kind': 'isolation', 'k': k, 'observed': recs[k], 'lone_instance': ref_recs[k]}
         if detail is None:
-            if cls == 'EpsAlg':
+            if cls == 'EpsAlg' and sp.get('np') == 'f32':
+                detail, cnt = None, {}          # single-precision arithmetic: only isolation is judged
+            elif cls == 'EpsAlg':
                 detail, cnt = check_epsalg(terms, recs)
             else:
                 detail, cnt = check_dea(terms, recs, extra, limexp)
@@ -637,7 +690,7 @@ def simplify_op(op):
                 yield c
         if op.get('np'):
             c = copy.deepcopy(op)
-            c['np'] = False
+            c['np'] = None
             yield c
 
 
@@ -664,6 +717,7 @@ def evidence(tier, seed, by_mode, det, n_viol, known_hits, errors, wall):
             'instances_interleaved_with_others': s.get('instances_interleaved', 0),
             'max_stream_len': s.get('max_stream_len', 0),
             'families': s.get('families', {}),
+            'term_types': s.get('term_types', {}),
             'limexp_values_seen': sorted(s.get('limexp_seen', set())),
             'epsalg_exact_checks': s.get('eps_checked', 0),
             'epsalg_exact_checks_beyond_25_terms': s.get('eps_checked_beyond_25', 0),
